@@ -78,11 +78,29 @@ def make(backend, system, flavor, rows, cfg, variant):
     return C03.make(backend, system, flavor, rows, cfg)
 
 
+class _DictBox:
+    """a caller-owned dict argument (transform matrices); snapshot = its items"""
+
+    def __init__(self, d):
+        self.d = d
+
+
+def _snap(o):
+    if isinstance(o, _DictBox):
+        return ("DICT", tuple((k, repr(v)) for k, v in o.d.items()))
+    if isinstance(o, np.ndarray) and not isinstance(o, vector.backends.numpy.VectorNumpy):
+        return ("PLAIN-NP", o.dtype.str, o.shape, o.strides, o.tobytes())
+    if isinstance(o, ak.Array) and not isinstance(o, vector.backends.awkward.VectorAwkward):
+        form, length, bufs = ak.to_buffers(o)
+        return ("PLAIN-AK", str(form), length, tuple((k, np.asarray(v).tobytes()) for k, v in sorted(bufs.items())))
+    return B.snapshot(o)
+
+
 def monitored(res: Result, label, cls, operands, fn, case):
     """run fn() with all operands snapshotted before and after"""
     res.states += 1
     res.evaluations += 1
-    before = [B.snapshot(o) for o in operands]
+    before = [_snap(o) for o in operands]
     res.transitions += 1
     raised = None
     try:
@@ -92,7 +110,7 @@ def monitored(res: Result, label, cls, operands, fn, case):
     ok = True
     for i, (o, b) in enumerate(zip(operands, before)):
         res.traces += 1
-        after = B.snapshot(o)
+        after = _snap(o)
         if after != b:
             what = _diff(b, after)
             res.violation(f"operand_modified|{cls}|operand{i}", f"{label} changed operand {i} ({type(o).__name__}): {what}" + (f" (the call raised {raised})" if raised else ""), case)
@@ -151,6 +169,20 @@ def run_ops(res, shard, tier):
                     cls = f"{op.key}|{ba}" + (f"x{bb}" if bb else "") + f"|{variant}"
                     ops_ = [va] + ([vb] if vb is not None else [])
                     monitored(res, op.key, cls, ops_, lambda: op.call(va, [vb] if vb is not None else [], s), case)
+                    if variant == "plain" and (C03.op_scalar_keys(op) or "matrix" in s) and ba in ("NP", "AKA") and cfga in ("1d", "flat", "jagged", "2d"):
+                        # the non-vector arguments are the caller's objects too: scalar arguments given as arrays, the matrix dict
+                        ss = dict(s)
+                        extra_args = []
+                        for kk in C03.ARRAYABLE:
+                            if kk in ss and kk in C03.op_scalar_keys(op):
+                                ss[kk] = B.make_scalar_like(ss[kk], va, ba)
+                                extra_args.append(ss[kk])
+                                break
+                        if "matrix" in ss:
+                            ss["matrix"] = dict(ss["matrix"])
+                            extra_args.append(_DictBox(ss["matrix"]))
+                        if extra_args:
+                            monitored(res, op.key, cls + "|arguments", ops_ + extra_args, lambda: op.call(va, [vb] if vb is not None else [], ss), dict(case, variant="scalar-array"))
     res.sample({"kind": "ops", "op": op.key, "dimA": dimA, "dimB": dimB, "signatures": len(sigs), "pairings": len(pairings), "variants": ["plain", "extra field", "NumPy view"]})
 
 
